@@ -841,6 +841,18 @@ func doReplay(prop, file string) int {
 	}
 	r := newRun(prop, "replay")
 	defer os.RemoveAll(r.dir)
+	if rp.Rule == "C12.generator" {
+		checkGenerator(r)
+		if len(r.viols) > 0 {
+			for _, k := range r.violOrder {
+				fmt.Printf("REPRODUCED key=%s %s\n", k, trunc(r.viols[k].Detail, 400))
+			}
+			fmt.Printf("VIOLATION property=%s replay=%s\n", prop, file)
+			return 1
+		}
+		fmt.Printf("replay: property=%s key=%s not reproduced on this tree\n", prop, rp.Key)
+		return 0
+	}
 	race := strings.Contains(rp.Rule, ".race")
 	bin, err := buildWorker(r.dir, race)
 	if err != nil {
